@@ -3,6 +3,9 @@
 Input : (history (op ...)) | (runUser beh)          (codecs: TTV/Drv/C20.lean, model: TTV/Model/Deferred.lean)
   op  = (fire res) | (add (cb onOk onFail tag)) | (resume res) | (match matcher) | classify | extract
   res = (ok val) | (fail e)      val = none | (num n) | (pair val val)
+        (num n) with n >= 100 is a value TOKEN: the object TOKENS[n - 100] (hostile ==: equal to everything, mock.ANY, == without a
+        truth value; falsy but valid: '', [], (), {}, a falsy object), else the int n.  The model never looks inside a number; what
+        comes back (extract_result, what probes see) is mapped to its token by IDENTITY (`is`).
   act = keep | (ret res viaDeferred) | inc | wait        tag = plain | (probe k)
   matcher = noResult | (succeeded always|never|(equals val)) | (failed always|never|(isExc e))
 Trace : (history (obs ...) ((probe-id res) ...) called logged-at-gc) | (runUser outcome)
@@ -19,17 +22,44 @@ class E(Exception):
         self.code = code
 
 
+from harness.props.c15 import Anything, ArrayLike, Falsy     # noqa: E402
+
+TOKEN_BASE = 100
+
+
+def _tokens():
+    from unittest import mock
+    return [Anything(), ArrayLike(), mock.ANY, '', [], (), {}, Falsy()]
+
+
+TOKENS = _tokens()
+TOKEN_NAMES = ['anything', 'arraylike', 'mock.ANY', 'empty-str', 'empty-list', 'empty-tuple', 'empty-dict', 'falsy-object']
+HOSTILE = 3                                                  # the first three have a == that lies or has no truth value
+# (None and 0 are the model's `none` / `num 0`; False and 0.0 are left out because Python's == identifies them with 0, which the
+# Equals matcher - equality by design - would see)
+
+
 def pyval(v):
     if v is None or v == 'none':
         return None
     if v[0] == 'num':
-        return v[1]
+        k = v[1] - TOKEN_BASE
+        return TOKENS[k] if 0 <= k < len(TOKENS) else v[1]
     return (pyval(v[1]), pyval(v[2]))
+
+
+def token_of(x):
+    for k, obj in enumerate(TOKENS):
+        if x is obj:
+            return k
+    return None
 
 
 def sxval(x):
     if x is None:
         return 'none'
+    if token_of(x) is not None:
+        return ['num', TOKEN_BASE + token_of(x)]
     if isinstance(x, bool):
         return ['not-a-model-value', 'bool']
     if isinstance(x, int):
@@ -61,7 +91,9 @@ class World:
         if act == 'keep':
             f = lambda x: x
         elif act == 'inc':
-            f = lambda x: (x or 0) + 1 if x is None or (isinstance(x, int) and not isinstance(x, bool)) else x
+            # (a token goes to the next token, as the model's number does)
+            f = lambda x: (pyval(['num', TOKEN_BASE + token_of(x) + 1]) if token_of(x) is not None else
+                           (x or 0) + 1 if x is None or (isinstance(x, int) and not isinstance(x, bool)) else x)
         elif act == 'wait':
             def f(x):
                 d = defer.Deferred()
@@ -154,15 +186,20 @@ class C20(Prop):
     id = 'C20'
     budgets = {'quick': 8000, 'thorough': 40000}
     time_limit = {'quick': 60, 'thorough': 600}
-    rule = ('histories of 1-12 operations (0-3 callbacks attached first, 70 % then fired) on a real twisted Deferred: fire with a value (None, ints, nested tuples) / fail with an exception, '
+    rule = ('histories of 1-12 operations (0-3 callbacks attached first, 70 % then fired) on a real twisted Deferred: fire with a value (None, ints, nested tuples; 30 % '
+            'value tokens: objects equal to everything / mock.ANY / with a == that has no truth value, empty str/list/tuple/dict, a falsy object - the hostile '
+            'three only in histories without an Equals matcher, which is equality by design; what comes back is identified with `is`) / fail with an exception, '
             'addCallbacks with pairs that pass through, return a value, raise, return an already-fired or an unfired Deferred (chaining), probes that record '
             'what later callbacks see; resume of the chained Deferred; has_no_result / succeeded(Always|Never|Equals) / failed(Always|Never|exception code); '
             'classify = the three classifying matchers on three replicas of the Deferred; extract_result; afterwards the Deferred is dropped and the Twisted '
             'log is checked for "Unhandled error in Deferred". Plus tests run with SynchronousDeferredRunTest that return / raise / return fired or unfired '
-            'Deferreds. thorough adds every history of length <= 5 over a 14-operation alphabet. non-trivial = a history with a matcher or extract after at '
+            'Deferreds, incl. every value token returned directly or in a fired Deferred; every quick run covers a token x route grid (extract_result, the three '
+            'matchers, probes after a match, callbacks returning the token, resume with it). thorough adds every history of length <= 5 over a 14-operation alphabet. non-trivial = a history with a matcher or extract after at '
             'least one other operation, or a runUser case with a Deferred; distinct = distinct input S-expression')
     assumptions = ['twisted.internet.defer.Deferred (callback chain, pausing on a returned Deferred, AlreadyCalledError, DebugInfo.__del__ logging '
                    '"Unhandled error in Deferred" exactly when the last result is a Failure) is modelled by TTV.Deferred.runCbs/add/fire/resume, not verified',
+                   'values: the model never looks inside a number; numbers >= 100 stand for special Python objects (hostile ==, falsy) and the harness maps '
+                   'results back by identity, so "extract_result returns the value" / "a successful result is left intact" are checked as identity',
                    'inner matchers are Always/Never/Equals (values) and Always/Never/exception-code (failures); they are assumed pure',
                    'garbage collection: the Deferred is dropped and gc.collect() is run inside the case; CPython reference counting semantics are assumed',
                    'SynchronousDeferredRunTest: only the reported outcome kind is compared (not details or tracebacks)',
@@ -275,9 +312,26 @@ class C20(Prop):
 
     # ------------------------------------------------------------------ generators
     VALS = [None, ['num', 0], ['num', 1], ['num', 2], ['num', 7], ['pair', ['num', 1], None], ['pair', ['pair', None, ['num', 3]], ['num', 1]]]
+    TOKS = [['num', TOKEN_BASE + k] for k in range(len(TOKENS))]
 
     def g_val(self, rng):
+        if rng.random() < 0.3:
+            t = rng.choice(self.TOKS)
+            return t if rng.random() < 0.8 else ['pair', t, rng.choice(self.VALS)]
         return rng.choice(self.VALS)
+
+    @staticmethod
+    def tame(x):
+        """hostile tokens -> falsy tokens (for histories with an Equals matcher: Equals is equality by design)"""
+        if isinstance(x, list):
+            if len(x) == 2 and x[0] == 'num' and isinstance(x[1], int) and 0 <= x[1] - TOKEN_BASE < HOSTILE:
+                return ['num', x[1] + HOSTILE]
+            return [C20.tame(y) for y in x]
+        return x
+
+    @staticmethod
+    def has_equals(x):
+        return isinstance(x, list) and (x[:1] == ['equals'] or any(C20.has_equals(y) for y in x))
 
     def g_res(self, rng):
         return ['ok', self.g_val(rng)] if rng.random() < 0.6 else ['fail', rng.randrange(3)]
@@ -330,11 +384,13 @@ class C20(Prop):
             ops.append(op)
             if op[0] == 'add' and 'wait' in op[1][1:3] and rng.random() < 0.6:
                 ops.append(['resume', self.g_res(rng)])
-        return ops
+        return self.tame(ops) if self.has_equals(ops) else ops
 
-    BEHS = ['returnsUnfired'] + [['returns', v] for v in (None, ['num', 3])] + [['raises', k] for k in ('failure', 'error', 'skip')] + \
-           [['returnsFired', None, v] for v in (None, ['num', 3], ['pair', None, ['num', 1]])] + \
-           [['returnsFired', ['some', k], None] for k in ('failure', 'error', 'skip')]
+    BEHS = ['returnsUnfired'] + [['returns', v] for v in (None, ['num', 3], ['num', 0])] + [['raises', k] for k in ('failure', 'error', 'skip')] + \
+           [['returnsFired', None, v] for v in (None, ['num', 3], ['num', 0], ['pair', None, ['num', 1]])] + \
+           [['returnsFired', ['some', k], None] for k in ('failure', 'error', 'skip')] + \
+           [['returns', ['num', TOKEN_BASE + k]] for k in range(len(TOKENS))] + \
+           [['returnsFired', None, ['num', TOKEN_BASE + k]] for k in range(len(TOKENS))]
 
     def gen(self, rng, tier):
         if rng.random() < 0.04:
@@ -346,6 +402,22 @@ class C20(Prop):
                 ['add', ['cb', 'keep', ['ret', ['ok', ['num', 2]], False], 'plain']], ['add', ['cb', 'wait', 'keep', 'plain']],
                 ['resume', ['ok', ['num', 1]]], ['resume', ['fail', 2]],
                 ['match', 'noResult'], ['match', ['succeeded', ['equals', ['num', 1]]]], ['match', ['failed', 'always']], 'classify', 'extract']
+
+    def corpus(self):
+        return Prop.corpus(self) + self.value_grid()
+
+    def value_grid(self):
+        """every token x the ways a value passes through testtools code: extract_result, the three matchers on a Deferred fired with
+        it / whose callback returned it, a probe after a match, and a test returning it (directly / in a fired Deferred)"""
+        out = [['runUser', b] for b in self.BEHS]
+        for t in self.TOKS + [['num', 0], None, ['pair', self.TOKS[0], self.TOKS[3]]]:
+            out.append(['history', [['fire', ['ok', t]], 'extract', 'classify', ['match', ['succeeded', 'always']],
+                                    ['add', ['cb', 'keep', 'keep', ['probe', 0]]], 'extract']])
+            out.append(['history', [['add', ['cb', ['ret', ['ok', t], False], ['ret', ['ok', t], True], 'plain']], ['fire', ['fail', 1]],
+                                    ['match', 'noResult'], ['match', ['failed', 'always']], ['match', ['succeeded', 'never']], 'extract']])
+            out.append(['history', [['add', ['cb', 'wait', 'keep', 'plain']], ['fire', ['ok', None]], ['match', 'noResult'],
+                                    ['resume', ['ok', t]], 'classify', 'extract', ['add', ['cb', 'inc', 'keep', ['probe', 1]]], 'extract']])
+        return out
 
     def enumerate(self, tier):
         for b in self.BEHS:
@@ -371,6 +443,17 @@ class C20(Prop):
             return ['kind:runUser', 'runUser:' + (inp[1] if isinstance(inp[1], str) else inp[1][0] + ('-failed' if inp[1][0] == 'returnsFired' and inp[1][1] else ''))]
         ops = inp[1]
         f = ['kind:history', 'len=%s' % (len(ops) if len(ops) < 7 else '7+')]
+
+        def toks(x):
+            if isinstance(x, list):
+                if len(x) == 2 and x[0] == 'num' and isinstance(x[1], int) and 0 <= x[1] - TOKEN_BASE < len(TOKENS):
+                    yield x[1] - TOKEN_BASE
+                else:
+                    for y in x:
+                        for t in toks(y):
+                            yield t
+        for t in sorted(set(toks(ops))):
+            f.append('value:' + TOKEN_NAMES[t])
         for op, ob in zip(ops, trace[1]):
             name = op if isinstance(op, str) else op[0]
             f.append('op:' + name)
